@@ -209,6 +209,7 @@ func (m *Machine) restore(b *baseState, epoch int) {
 	m.owner = "harness"
 	m.poolPolicy = m.cfg.PoolPolicy
 	m.allocBytes = m.ctx.Const(0, 64)
+	m.allocTrack, m.allocEvents, m.allocSites = false, 0, nil
 	m.lastPanic = ""
 	m.phase = ""
 	m.witnesses = []witness{{}}
